@@ -54,7 +54,20 @@ def build(model, frames, k, refine, batch):
         return ip.build_single(dict(scale=1.0, max_stride=8, stride=2, refine=refine, batch=batch, max_h=H, max_w=W), frames, 3)[0]
     if model == "topdown":
         return ip.build_topdown(dict(scale=1.0, cscale=1.0, max_stride=8, stride=2, cstride=2, crop=32, anchor=0, refine=refine, batch=batch, max_h=H, max_w=W), frames, 3, max_instances=(k or None))[0]
+    if model == "bottomup-tiny":      # 32x32 frames, PAF stride 8: a 4x4 PAF grid, smaller than the batch
+        return ip.build_bottomup(dict(scale=1.0, max_stride=8, stride=2, pstride=8, refine=refine, batch=batch), frames, 3, EDGES, max_instances=(k or None))[0]
     return ip.build_bottomup(dict(scale=1.0, max_stride=8, stride=2, pstride=2, refine=refine, batch=batch, max_h=H, max_w=W), frames, 3, EDGES, max_instances=(k or None))[0]
+
+
+def tiny_scene(rng):
+    """8 frames of 32x32 px, one animal each whose edges (about 12 px) are longer than the unpenalised length on a 4x4 PAF grid
+    (0.25 * 4 cells * 8 px): the line score carries the distance penalty, which depends on the PAF grid size only."""
+    frames = []
+    for f in range(8):
+        x0, y0 = 5 + rng.uniform(0, 2), 6 + (f % 3) + rng.uniform(0, 1)
+        pts = np.array([[x0, y0], [x0 + 12 + rng.uniform(-0.5, 0.5), y0 + 1], [x0 + 13, y0 + 13 + rng.uniform(-0.5, 0.5)]])
+        frames.append(dict(hw=(32, 32), animals=[np.round(pts * 4) / 4.0], video=0))
+    return frames
 
 
 def run_batch(model, src, frames, batch, k, refine):
@@ -129,7 +142,11 @@ def run(tier, seed, only=None):
     rng = random.Random(seed)
     cases = []
     for ci, (model, k, refine) in enumerate(combos):
-        if only and (model, k, refine) != tuple(only["combo"]):
+        tiny_only = bool(only) and only["combo"][0] == "bottomup-tiny"
+        if tiny_only:
+            if (model, k, refine) != ("bottomup", 0, only["combo"][2]):
+                continue
+        elif only and (model, k, refine) != tuple(only["combo"]):
             continue
         srng = random.Random(seed * 31 + ci)
         mixed = ci % 2 == 1           # every second combination: two videos of different frame sizes, size-matched
@@ -156,7 +173,7 @@ def run(tier, seed, only=None):
             err = "singleton run: %s: %s" % (type(e).__name__, str(e)[:200])
         use = batches if tier == "thorough" else ([b for b in batches if len(b) <= 2] + rng.sample([b for b in batches if len(b) == 3], 8))
         for b in use:
-            if only and (b != only["batch"] or only.get("range")):
+            if only and (b != only["batch"] or only.get("range") or tiny_only):
                 continue
             case = dict(id=len(cases), model=model, k=k, refine=refine or "none", batch=b, animals=[len(fr["animals"]) for fr in frames],
                         single=single, singlek=singlek, recs=[], raised=err, combo=[model, k, refine], seed=seed)
@@ -170,8 +187,38 @@ def run(tier, seed, only=None):
                     import traceback
                     case["raised"] = "%s: %s | %s" % (type(e).__name__, str(e)[:200], traceback.format_exc()[-300:].replace("\n", " / "))
             cases.append(case)
+        # ---- bottom-up only: more frames in the batch than the PAF grid has cells along a side --------------------------
+        if model == "bottomup" and (not only or tiny_only):
+            framesT = tiny_scene(random.Random(seed * 41 + ci))
+            srcT = ip.make_source(framesT, 3, EDGES)
+            clT = Classes()
+
+            def projT(insts):
+                return [dict(cls=clT.of(p), score=int(round(s_ * 1e6))) for p, s_ in insts]
+
+            singleT, errT = [], ""
+            try:
+                for f in range(8):
+                    o0 = run_batch("bottomup-tiny", srcT, framesT, [f], 0, refine)
+                    singleT.append(projT(sum(o0.get(f, []), [])))
+            except Exception as e:
+                errT = "singleton run: %s: %s" % (type(e).__name__, str(e)[:200])
+            for b in ([0, 1, 2, 3, 4, 5, 6, 7], [7, 3, 5, 1, 6, 0, 2, 4], [0, 1, 2, 3, 4, 5]):
+                if tiny_only and b != only["batch"]:
+                    continue
+                case = dict(id=len(cases), model="bottomup", k=0, refine=refine or "none", batch=b, animals=[1] * 8, single=singleT, singlek=singleT,
+                            recs=[], raised=errT, combo=["bottomup-tiny", 0, refine], seed=seed, family="tiny_frames_big_batch")
+                if not errT:
+                    try:
+                        o = run_batch("bottomup-tiny", srcT, framesT, b, 0, refine)
+                        for fid, lst in o.items():
+                            for insts in lst:
+                                case["recs"].append(dict(fid=fid, insts=projT(insts)))
+                    except Exception as e:
+                        case["raised"] = "%s: %s" % (type(e).__name__, str(e)[:200])
+                cases.append(case)
         # ---- the same combination through the VideoReader provider: consecutive frames [s, e) of ONE video in batches of bs
-        if only and not only.get("range") and only.get("batch") is not None:
+        if only and ((not only.get("range") and only.get("batch") is not None) or tiny_only):
             continue
         framesV = [dict(fr, video=0) for fr in scene(random.Random(seed * 37 + ci), model == "single")]
         framesV = framesV[2:] + framesV[:2]                  # an empty frame in the middle of a batch, not only first
@@ -258,6 +305,7 @@ def run(tier, seed, only=None):
         res.violation(key, clause, dict(combo=c["combo"], batch=c["batch"], range=c.get("range"), recs=c["recs"], singlek=c["singlek"], single=c["single"], animals=c["animals"]),
                       "%s k=%s refine=%s batch=%s %s %s" % (c["model"], c["k"], c["refine"], c["batch"], ("VideoReader range/batch size %s" % c["range"]) if c.get("range") else "", c["raised"]))
     res.clause("batches_with_empty_frame", sum(1 for c in cases if 0 in c["batch"]))
+    res.clause("batches_larger_than_the_paf_grid", sum(1 for c in cases if c.get("family") == "tiny_frames_big_batch"))
     res.clause("video_reader_range_runs", sum(1 for c in cases if c.get("provider") == "VideoReader"))
     res.clause("runs_with_max_instances", sum(1 for c in cases if c["k"]))
     res.coverage.update(evaluations=len(cases), exhaustive=(tier == "thorough"),
